@@ -33,7 +33,7 @@ def cqc(x):
     return '(q (%d) %d)' % (x.numerator, x.denominator)
 
 
-HEADER = '''From Coq Require Import QArith Qcanon Qcabs ZArith List Bool Arith Lia.
+HEADER = '''From Coq Require Import QArith Qcanon ZArith List Bool Arith Lia.
 From Verif.lib Require Import Bsp.
 From Verif.C09 Require Import Model Proofs.
 Import ListNotations.
@@ -50,24 +50,35 @@ def tables(qmax):
     return out
 
 
-def table_text(qmax, defect=Fraction(2, 10 ** 15)):
+def table_text(qmax, defect=Fraction(2, 10 ** 15), qc_upto=6):
     tb = tables(qmax)
     rows = []
     for n in range(1, qmax + 1):
-        rows.append('  (%d%%nat, [%s])' % (n, '; '.join('(%s, %s)' % (cqc(a), cqc(b)) for a, b in tb[n])))
+        D = max(max(a.denominator, b.denominator) for a, b in tb[n])
+        ent = []
+        for a, b in tb[n]:
+            assert D % a.denominator == 0 and D % b.denominator == 0      # doubles: powers of two
+            ent.append('(%d, %d)%%Z' % (a.numerator * (D // a.denominator), b.numerator * (D // b.denominator)))
+        rows.append('  (%d%%nat, (%d%%positive, [%s]))' % (n, D, '; '.join(ent)))
     t = HEADER
-    t += '(* np.polynomial.legendre.leggauss(q), q = 1..%d, numpy %s: exact values of the doubles *)\n' % (qmax, np.__version__)
-    t += 'Definition leggauss_tbl : list (nat * rule) := [\n' + ';\n'.join(rows) + '].\n'
-    t += 'Definition leggauss (n : nat) : rule := match find (fun e => Nat.eqb (fst e) n) leggauss_tbl with Some e => snd e | None => [] end.\n'
-    t += 'Definition defect : Qc := %s.\n' % cqc(defect)
+    t += '(* np.polynomial.legendre.leggauss(q), q = 1..%d, numpy %s: exact values of the doubles,\n' % (qmax, np.__version__)
+    t += '   per table with a common denominator D: (node*D, weight*D) *)\n'
+    t += 'Definition leggauss_ztbl : list (nat * zrule) := [\n' + ';\n'.join(rows) + '].\n'
+    t += 'Definition leggauss (n : nat) : rule := match find (fun e => Nat.eqb (fst e) n) leggauss_ztbl with Some e => rule_of_z (snd e) | None => [] end.\n'
+    t += 'Definition defect : Q := %d # %d.\n' % (defect.numerator, defect.denominator)
     t += '''
 (* leggauss_exact_bounded: for every q <= %d the table has q nodes strictly inside (-1,1), in
-   increasing order, positive weights, and integrates x^k, k <= 2q-1, with defect <= 2e-15 *)
-Lemma leggauss_exact_bounded : forallb (fun e => rule_ok defect (fst e) (snd e)) leggauss_tbl = true.
+   increasing order, positive weights, and integrates x^k, k <= 2q-1, with defect <= 2e-15
+   (scaled integer arithmetic, exact) *)
+Lemma leggauss_exact_bounded : forallb (fun e => zrule_ok defect (fst e) (snd e)) leggauss_ztbl = true.
 Proof. vm_compute. reflexivity. Qed.
-Lemma leggauss_all_q : map fst leggauss_tbl = seq 1 %d.
+Lemma leggauss_all_q : map fst leggauss_ztbl = seq 1 %d.
 Proof. vm_compute. reflexivity. Qed.
-''' % (qmax, qmax)
+(* the same statement in the form theorem quad_poly_defect consumes (rule_moment over Qc), q <= %d *)
+Lemma leggauss_exact_bounded_qc :
+  forallb (fun n => rule_ok (Q2Qc defect) n (leggauss n)) (seq 1 %d) = true.
+Proof. vm_compute. reflexivity. Qed.
+''' % (qmax, qmax, qc_upto, qc_upto)
     return t
 
 
